@@ -110,11 +110,10 @@ def py_targets(lib, page, api):
     return out
 
 
-def outside_domain(lib, page, mode, api):
-    """In "django" mode a component rendered from Python (outer_context None) resolves a slot that it wrote inside the
-    body of a child's fill against the CHILD's fills (slots.py: the 'outer_context is None' index search) - endless
-    rendering or RecursionError.  Which fill a slot resolves to is property C01's subject; such programs are rendered
-    in "isolated" mode here."""
+def python_root_slot_in_fill(lib, page, mode, api):
+    """In "django" mode a component rendered from Python (outer_context None) that writes a slot inside the body of a
+    child's fill used to resolve it against the CHILD's fills (endless rendering / RecursionError; found while this
+    generator was extended, fixed in /repo by 7d75a37).  Counted, rendered like every other program."""
     return mode == "django" and any(slot_in_fill(lib[k][0]) for k in py_targets(lib, page, api))
 
 
@@ -702,10 +701,8 @@ def chain_program(depth, shared):
 
 # ------------------------------------------------------------------------------------------------
 def run_case(chk, lib, page, mode, api, kind, terms, cases, ids="counter"):
-    if outside_domain(lib, page, mode, api):
-        mode = "isolated"
-        chk.extra["django_python_root_with_slot_in_fill_rendered_isolated_instead"] = \
-            chk.extra.get("django_python_root_with_slot_in_fill_rendered_isolated_instead", 0) + 1
+    if python_root_slot_in_fill(lib, page, mode, api):
+        chk.extra["django_python_root_with_slot_in_fill"] = chk.extra.get("django_python_root_with_slot_in_fill", 0) + 1
     html_out, exc, log, tabs = render_impl(lib, page, mode, api)
     case = {"lib": lib, "page": page, "mode": mode, "api": api}
     if ids != "counter":
